@@ -211,6 +211,29 @@ def oracle_envelope(x, mode, method, pad, parabolic, dtype=None, amp=1.0):
     if err > 1e-9 * scale:
         fails.append(('interp_envelope', 'mode=%s method=%s pad=%d parabolic=%s: envelope differs from the interpolant through the '
                       'returned extrema evaluated at the integer sample times by %.3g' % (mode, method, pad, parabolic, err)))
+    # the padded extrema themselves: their interior part must be the strict local extrema of the signal (of |x| for the combined
+    # envelope), at the vertex of the parabola through the three samples around each when refinement is on
+    yv = np.asarray({'upper': x, 'lower': -np.asarray(x, dtype=float), 'combined': np.abs(x)}[mode], dtype=float)
+    idx = [i for i in range(1, N - 1) if yv[i] > yv[i - 1] and yv[i] > yv[i + 1]]
+    if parabolic:
+        el, ev = [], []
+        for i in idx:
+            pa, pb = (yv[i - 1] + yv[i + 1]) / 2 - yv[i], (yv[i + 1] - yv[i - 1]) / 2
+            el.append(i - pb / (2 * pa))
+            ev.append(yv[i] - pb * pb / (4 * pa))
+    else:
+        el, ev = [float(i) for i in idx], [yv[i] for i in idx]
+    ev = [-v for v in ev] if mode == 'lower' else ev
+    inner = [(float(a), float(b)) for a, b in zip(locs, pks) if 0 <= a <= N - 1]
+    # (a padded extremum may coincide with sample 0 or N-1 only through reflection: interior ones are those matching the expected count)
+    got_l, got_v = [a for a, _ in inner], [b for _, b in inner]
+    if len(el) >= 1 and (len(got_l) < len(el) or not any(
+            np.allclose(got_l[o:o + len(el)], el, rtol=0, atol=1e-9 * max(1.0, N)) and
+            np.allclose(got_v[o:o + len(el)], ev, rtol=1e-9, atol=1e-9 * scale) for o in range(len(got_l) - len(el) + 1))):
+        fails.append(('get_padded_extrema', 'mode=%s pad=%d parabolic=%s: the extrema inside the recording are %s / %s, the strict local extrema%s '
+                      'of the signal are %s / %s' % (mode, pad, parabolic, [round(v, 6) for v in got_l][:8], [float('%.6g' % v) for v in got_v][:8],
+                                                     ' (parabola vertices)' if parabolic else '', [round(v, 6) for v in el][:8],
+                                                     [float('%.6g' % v) for v in ev][:8])))
     if not parabolic:
         y = {'upper': x, 'lower': x, 'combined': np.abs(x)}[mode]
         inner = [int(v) for v in locs if 0 <= v < N and float(v).is_integer()]
